@@ -62,8 +62,24 @@ impl Property for C06 {
     fn describe(&self, bytes: &[u8]) -> J {
         program_json(&decode(bytes))
     }
+    fn structured(&self, bytes: &[u8]) -> Option<J> {
+        serde_json::to_value(decode(bytes)).ok()
+    }
+    fn run_structured(&self, case: &J, _tier: Tier) -> Option<CaseOut> {
+        let prog: Program = serde_json::from_value(case.clone()).ok()?;
+        Some(run_program(&prog))
+    }
     fn run(&self, bytes: &[u8], _tier: Tier) -> CaseOut {
-        let prog = decode(bytes);
+        run_program(&decode(bytes))
+    }
+    fn label_floors(&self) -> Vec<(&'static str, f64)> {
+        vec![("captured_access", 0.10), ("closure_offset>0", 0.10), ("closure_in_loop", 0.05), ("read_after_write", 0.02), ("submodule", 0.10)]
+    }
+}
+
+fn run_program(prog: &Program) -> CaseOut {
+    {
+        let prog = prog.clone();
         let fp = fnv64(format!("{:?}", prog).as_bytes());
         let r = run_reference(&prog, 60_000);
         let mut labels = labels_of(&r);
@@ -104,8 +120,5 @@ impl Property for C06 {
             Some((clause, detail)) => Verdict::Fail(Failure::new(&clause, &crate::props::c01::failure_sig("c06", &clause, &obs, &r), detail)),
         };
         CaseOut { verdict, nontrivial, labels, fingerprint: fp, execs: 1 }
-    }
-    fn label_floors(&self) -> Vec<(&'static str, f64)> {
-        vec![("captured_access", 0.10), ("closure_offset>0", 0.10), ("closure_in_loop", 0.05), ("read_after_write", 0.02), ("submodule", 0.10)]
     }
 }
